@@ -280,6 +280,29 @@ Definition serve (e : endpoint) (m : meth) (x : ctx) : outcome * bytes :=
                 end
          end.
 
+(* ------------------------------------------------------------------------------------------------ api_notices.go
+   the part of the notices handlers that depends on what the access checker attached to RemoteAddr *)
+
+(* noticeReadInterfaces[t] (nil for a type that is not a key) *)
+Fixpoint lookup_ifaces (tbl : list (bytes * list bytes)) (t : bytes) : list bytes :=
+  match tbl with [] => [] | (k, v) :: r => if beq k t then v else lookup_ifaces r t end.
+
+(* noticeTypesViewableBySnap(types, r) *)
+Definition notice_types_viewable (types : list bytes) (remote : bytes) : bool :=
+  match ucrednet_get_with_interfaces remote with
+  | None => false
+  | Some (u, ifaces) =>
+    if beq (u_socket u) snapd_socket then true
+    else if is_nil_b types then false
+    else forallb (fun t => existsb (fun i => mem i (lookup_ifaces notice_read_interfaces t)) ifaces) types
+  end.
+
+(* ------------------------------------------------------------------------------------------------ api_snapctl.go
+   runSnapctl: the uid handed to ctlcmd.Run is ucrednetGet(r.RemoteAddr).Uid (0 stands for the error return, which
+   makes runSnapctl answer Forbidden without calling Run) *)
+Definition snapctl_uid (remote : bytes) : N :=
+  match ucrednet_get remote with Some u => u_uid u | None => 0 end.
+
 (* ------------------------------------------------------------------------------------------------ the pinned policy
    Written by hand (pinned from the endpoint table of the tree this check was built on, each row reviewed against the
    REST API documentation), kept independent of the generated table: for each path and verb the
@@ -426,6 +449,16 @@ Definition allowed_b (p : access) (x : ctx) (creds : option ucred) : bool :=
     end
   end.
 
+(* which interface lets a snap read which notice type over snapd-snap.socket: hand-written (pinned), independent of the
+   generated noticeReadInterfaces; `warning` is readable by no snap *)
+Definition spec_notice_ifaces : list (bytes * list bytes) := [
+  (bs "change-update", [if_refresh_observe]);
+  (bs "refresh-inhibit", [if_refresh_observe]);
+  (bs "snap-run-inhibit", [if_refresh_observe]);
+  (bs "interfaces-requests-prompt", [if_prompting]);
+  (bs "interfaces-requests-rule-update", [if_prompting])
+].
+
 (* ------------------------------------------------------------------------------------------------ driver vocabulary
    Shared literals that keep the generated case terms small. The Go driver (c26ConnMode / c26PkMode) has the same
    tables; if the two diverge, model and implementation are given different contexts and the correspondence reports it. *)
@@ -495,7 +528,15 @@ Inductive case : Type :=
 | CCred (pid : Z) (uid : N) (socket : bytes)      (* (&ucrednet{..}).String() and parsed back by the implementation *)
         (printed : bytes) (back : option ucred) (back_ifaces : list bytes)
 | CParse (s : bytes) (back : option ucred) (back_ifaces : list bytes)   (* ucrednetGetWithInterfaces on any string *)
-| CAttach (s iface : bytes) (r : bytes).          (* ucrednetAttachInterface *)
+| CAttach (s iface : bytes) (r : bytes)           (* ucrednetAttachInterface *)
+| CAttachParse (s iface : bytes) (r : bytes) (back : option ucred) (back_ifaces : list bytes)
+                                                  (* attach, then ucrednetGetWithInterfaces on the result *)
+| CSnapctl (remote : bytes) (creds : option ucred) (called : bool) (uid : N)
+                                                  (* the real runSnapctl behind the real ServeHTTP: was ctlcmd.Run called,
+                                                     and with which uid *)
+| CViewable (types : list bytes) (remote : bytes) (creds : option ucred) (pre : list bytes) (b : bool).
+                                                  (* noticeTypesViewableBySnap on a forged address; creds/pre: what the
+                                                     driver meant to put there (monitor only) *)
 
 Definition nth_ep (idx : nat) : option endpoint := nth_error api idx.
 
@@ -537,6 +578,21 @@ Definition mismatch (c : case) : bool :=
     let (mc, mi) := get_full s in
     negb (opt_ucred_eqb mc back) || negb (list_bytes_eqb mi back_ifaces)
   | CAttach s iface r => negb (beq (ucrednet_attach_interface s iface) r)
+  | CAttachParse s iface r back back_ifaces =>
+    negb (beq (ucrednet_attach_interface s iface) r) ||
+    let (mc, mi) := get_full r in
+    negb (opt_ucred_eqb mc back) || negb (list_bytes_eqb mi back_ifaces)
+  | CViewable types remote _ _ b => negb (Bool.eqb (notice_types_viewable types remote) b)
+  | CSnapctl remote _ called uid =>
+    match find (fun e => beq (ep_path e) (bs "/v2/snapctl")) api with
+    | None => true
+    | Some e =>
+      let (out, r') := serve e POST (mkCtx remote false (pk_table [] PkNo) None [] false) in
+      match out with
+      | Handler => negb called || negb (snapctl_uid r' =? uid)
+      | _ => called
+      end
+    end
   end.
 
 (* the property's conclusion is false on the implementation's OBSERVED behaviour. Uses the pinned policy, the creds the
@@ -573,4 +629,29 @@ Definition monitor_fail (c : case) : bool :=
     | Some u => (u_pid u =? 0) || (2147483648 <=? u_pid u) || (4294967295 <=? u_uid u) || negb (forallb not_semi (u_socket u))
     end
   | CAttach _ _ _ => false
+  | CAttachParse s iface r back back_ifaces =>
+    (* attaching a proper interface name (no ; no &) to an address that carried credentials keeps them and the name is
+       among the interfaces read back; uses only what the implementation returned for s (a CParse twin is not needed:
+       the claim is conditional on `back` being some credentials) *)
+    if forallb not_semi iface && forallb (fun c => negb (c =? amp)) iface
+    then match back with
+         | Some _ => negb (mem iface back_ifaces)
+         | None => false
+         end
+    else false
+  | CSnapctl _ creds called uid =>
+    (* ctlcmd.Run was called for a request that is not a real peer on snapd-snap.socket, or with another uid than the peer's *)
+    called && match creds with
+              | None => true
+              | Some u => negb (beq (u_socket u) snap_socket) || negb (uid =? u_uid u)
+              end
+  | CViewable types _ creds pre b =>
+    (* viewable although the peer is not on snapd.socket and some requested type has no attached interface that the
+       hand-written table lists for it (or no type was requested, or there are no credentials) *)
+    b && match creds with
+         | None => true
+         | Some u => negb (beq (u_socket u) snapd_socket) &&
+                     (is_nil_b types ||
+                      negb (forallb (fun t => existsb (fun i => mem i (lookup_ifaces spec_notice_ifaces t)) pre) types))
+         end
   end.
